@@ -195,19 +195,30 @@ structure AddInv (att new : List Change) (s : AttSt) : Prop where
   added_fresh : ∀ c ∈ s.added, hasId att c.id = false
   unatt_fresh : ∀ c ∈ s.unatt, hasId s.attached c.id = false
   prevs : ∀ c ∈ s.added, ∀ pid ∈ c.prev, hasId s.attached pid = true
+  hasPrev : ∀ c ∈ s.added, c.prev ≠ []
 
 theorem canAttach_true {att : List Change} {c : Change} {b : Bool} (h : canAttach att c = (true, b)) :
     ∀ pid ∈ c.prev, hasId att pid = true := by
   unfold canAttach at h
   split at h
-  · rename_i hall
-    simpa [allPrevAttached, List.all_eq_true] using hall
   · cases h
+  · split at h
+    · rename_i hall
+      simpa [allPrevAttached, List.all_eq_true] using hall
+    · cases h
+
+theorem canAttach_true_nonempty {att : List Change} {c : Change} {b : Bool} (h : canAttach att c = (true, b)) :
+    c.prev ≠ [] := by
+  unfold canAttach at h
+  split at h
+  · cases h
+  · rename_i hne
+    intro he; rw [he] at hne; simp at hne
 
 theorem addInv_attachOne {att new : List Change} {s : AttSt} (inv : AddInv att new s) {c : Change}
     (hnew : c ∈ new) (hfresh : hasId s.attached c.id = false)
-    (hprev : ∀ pid ∈ c.prev, hasId s.attached pid = true) : AddInv att new (attachOne s c) := by
-  refine ⟨?_, ?_, ?_, ?_, ?_, ?_⟩
+    (hprev : ∀ pid ∈ c.prev, hasId s.attached pid = true) (hne : c.prev ≠ []) : AddInv att new (attachOne s c) := by
+  refine ⟨?_, ?_, ?_, ?_, ?_, ?_, ?_⟩
   · simp [attachOne, inv.att_eq]
   · intro d hd
     simp only [attachOne, List.mem_append, List.mem_singleton] at hd
@@ -237,15 +248,20 @@ theorem addInv_attachOne {att new : List Change} {s : AttSt} (inv : AddInv att n
     rcases hd with hd | rfl
     · simp [inv.prevs d hd pid hp]
     · simp [hprev pid hp]
+  · intro d hd
+    simp only [attachOne, List.mem_append, List.mem_singleton] at hd
+    rcases hd with hd | rfl
+    · exact inv.hasPrev d hd
+    · exact hne
 
 theorem addInv_wait {att new : List Change} {s : AttSt} (inv : AddInv att new s) (w : List (Id × Id)) :
     AddInv att new { s with wait := w } :=
-  ⟨inv.att_eq, inv.added_new, inv.unatt_new, inv.added_fresh, inv.unatt_fresh, inv.prevs⟩
+  ⟨inv.att_eq, inv.added_new, inv.unatt_new, inv.added_fresh, inv.unatt_fresh, inv.prevs, inv.hasPrev⟩
 
 theorem addInv_unattFilter {att new : List Change} {s : AttSt} (inv : AddInv att new s) (f : Change → Bool) :
     AddInv att new { s with unatt := s.unatt.filter f } :=
   ⟨inv.att_eq, inv.added_new, fun c hc => inv.unatt_new c (List.mem_filter.mp hc).1, inv.added_fresh,
-    fun c hc => inv.unatt_fresh c (List.mem_filter.mp hc).1, inv.prevs⟩
+    fun c hc => inv.unatt_fresh c (List.mem_filter.mp hc).1, inv.prevs, inv.hasPrev⟩
 
 theorem addInv_cascade {att new : List Change} (fuel : Nat) (ws : List Id) (s : AttSt)
     (inv : AddInv att new s) : AddInv att new (cascade fuel ws s) := by
@@ -265,6 +281,7 @@ theorem addInv_cascade {att new : List Change} (fuel : Nat) (ws : List Id) (s : 
           apply ih
           apply addInv_wait
           exact addInv_attachOne inv (inv.unatt_new next hmem) (inv.unatt_fresh next hmem) (canAttach_true hcan)
+            (canAttach_true_nonempty hcan)
         · exact ih _ _ (addInv_unattFilter inv _)
         · exact ih _ _ inv
 
@@ -279,9 +296,9 @@ theorem addInv_addOne {att new : List Change} (fuel : Nat) (s : AttSt) (inv : Ad
     · rename_i b hcan
       apply addInv_cascade
       apply addInv_wait
-      exact addInv_attachOne inv hnew hdup.1 (canAttach_true hcan)
+      exact addInv_attachOne inv hnew hdup.1 (canAttach_true hcan) (canAttach_true_nonempty hcan)
     · exact inv
-    · refine ⟨inv.att_eq, inv.added_new, ?_, inv.added_fresh, ?_, inv.prevs⟩
+    · refine ⟨inv.att_eq, inv.added_new, ?_, inv.added_fresh, ?_, inv.prevs, inv.hasPrev⟩
       · intro d hd
         rcases List.mem_append.mp hd with hd | hd
         · exact inv.unatt_new d hd
@@ -303,7 +320,7 @@ theorem addInv_foldl {att new : List Change} (fuel : Nat) (cs : List Change) (s 
 theorem addInv_treeAdd (att new : List Change) : AddInv att new (treeAdd att new) := by
   unfold treeAdd
   apply addInv_foldl
-  · exact ⟨by simp, by simp, by simp, by simp, by simp, by simp⟩
+  · exact ⟨by simp, by simp, by simp, by simp, by simp, by simp, by simp⟩
   · exact fun c hc => hc
 
 /-! ### rollback -/
